@@ -66,6 +66,35 @@ CLAIMS["C14"] = dict(
     technique="Verus loop-invariant proofs on mechanically extracted MoveGen methods (unbounded list length) + Kani one-step contracts on the real ArrayVec (bounded to 3 slots)",
 )
 
+CLAIMS["C13"] = dict(
+    category="proof",
+    text="Render half, complete: Display::fmt of every one of the 20480 move values and 64 squares writes exactly source, destination and lower-case promotion letter (Kani, full domain, bytes captured in a fixed sink). Parse half, bounded and labelled so: FromStr for Square/ChessMove agree with a specification parser on every ASCII string up to 6 bytes (success condition, result, rendering-is-prefix), which together with the render contract gives parse(render(x)) == x for all values; totality (no panic) on every valid UTF-8 string up to 4 bytes (5 in thorough).",
+    design_ref="DESIGN.md §6 C13",
+    note=TRUST + "the parse contracts are bounded in text length (<= 6 ASCII bytes, <= 4/5 bytes arbitrary UTF-8): longer inputs are not decided (the parsers read only bytes 0..4, len()==5 and the last char — argued, not proved); rendering goes through write! into a fixed-size fmt::Write sink instead of String.",
+    technique="Kani/CBMC full-domain render contracts on Display::fmt + bounded symbolic-text parse contracts on FromStr against a spec parser",
+)
+CLAIMS["C18"] = dict(
+    category="proof",
+    text="null_move is proved (Kani, symbolic king, every placement, with and without en-passant state) to be refused exactly when the mover's king is attacked (independent flood-fill attack spec, tied to the checkers field by a code-independent lemma) and otherwise to return the same placement, rights and hash field, the other side to move, no en-passant state and check/pin information equal to the from-scratch spec of the result; the callee update_pin_info is used through its contract, which is proved per king square (16 per quick run, all 128 in thorough).",
+    design_ref="DESIGN.md §6 C18",
+    note=TRUST + "modular: update_pin_info replaced by its contract O3.1 (stand-in upi_spec), O3.1 proved for a subset of king squares in the quick tier; table accessors replaced by closed forms proved equal to them (C16 obligations, run as part of this check).",
+    technique="Kani/CBMC contract on Board::null_move with the callee replaced by its separately proved contract",
+)
+CLAIMS["C08"] = dict(
+    category="proof",
+    text="get_hash is proved to read only the incremental hash field, the en-passant file, both castle rights and the side to move; the incremental field is proved to stay the XOR of the keys of the placement under every operation that changes the board: Board::xor (exactly one key toggled), make_move_new / make_move (coordinate-wise hash contract for every key, every placement, every rule-obeying move), null_move (field unchanged); Hash for Board feeds exactly that field, so it is consistent with ==. Hence equal positions hash equally however they were reached.",
+    design_ref="DESIGN.md §6 C08",
+    note=TRUST + "the lift from per-operation contracts to 'all pairs of histories' is the standard induction over the history (each step preserves hash == XOR of keys of the placement), stated here and not mechanised; TryFrom<&BoardBuilder> builds the field by xor calls from 0 (C07 obligations).",
+    technique="Kani/CBMC relational frame contract on get_hash, coordinate-wise hash contracts on make_move*/xor via a probe stand-in for the key table, recording-Hasher contract for Hash",
+)
+CLAIMS["C09"] = dict(
+    category="proof",
+    text="First clause only. On the real generated key tables: all 768 piece-square keys non-zero and pairwise distinct, castle keys of a colour pairwise distinct, en-passant keys non-zero and pairwise distinct, side key non-zero (Kani, two symbolic indices); and for every raw board each single-component variant (one square's content, side to move, one side's rights, en-passant file) changes get_hash.",
+    design_ref="DESIGN.md §6 C09",
+    note=TRUST + "the statistical clause (collision frequency among millions of explored positions) is not a contract-level statement and is NOT addressed; the side-to-move variant is stated for positions without en-passant state.",
+    technique="Kani/CBMC full-domain distinctness proof over the real Zobrist tables + single-component sensitivity contract on get_hash",
+)
+
 NOT_YET = {}
 
 
